@@ -259,6 +259,27 @@ pub fn candidates(sink: &mut Sink, seed: u64, thorough: bool, corpus: &str) {
         if !thorough && i % 4 != 0 { continue; }
         specs.push(mk(st.input, st.ecl, None, None, None, "cand:real".into()));
     }
+    // Candidates SHAPED at the module level: the payload is chosen so that, under mask m, the data modules it controls come out all
+    // dark, all light, in stripes (both directions, two widths), as a checkerboard or as 2x2 tiles - the extremes of the run, block and
+    // window terms (error-correction modules stay as they fall).  Byte mode, level L, full capacity.
+    for &v in (if thorough { &[1usize, 2, 3, 5, 7, 10][..] } else { &[1usize, 3, 7][..] }) {
+        let e = 0usize;
+        let where_ = bit_modules(v, e);
+        let n = 17 + 4 * v;
+        let cap = capacity(2, e, v);
+        let head = 4 + if v < 10 { 8 } else { 16 };
+        for m in 0..8usize { for k in 0..8usize {
+            if !thorough && (m + k + v) % 3 != (seed % 3) as usize { continue; }
+            let mut p = vec![0u8; cap];
+            for j in 0..cap { for b in 0..8 {
+                let idx = where_.get(head + 8 * j + b).copied().unwrap_or(0);
+                let (i, jx) = (idx / n, idx % n);
+                let want_dark = match k { 0 => true, 1 => false, 2 => jx % 2 == 0, 3 => i % 2 == 0, 4 => (i + jx) % 2 == 0, 5 => (i / 2 + jx / 2) % 2 == 0, 6 => jx % 6 < 3, _ => i % 8 < 5 };
+                if want_dark != mask_bit(m, i, jx) { p[j] |= 0x80 >> b; }       // module = data XOR mask flip
+            } }
+            specs.push(mk(p, Some(e), Some(2), Some(v), None, format!("cand:shaped:{v}:{k}")));
+        } }
+    }
     // Exact steps of the dark-ratio term: it changes at 40% and 60% dark, and a symbol can sit EXACTLY on such a step only when
     // 5 divides its side (versions 2, 7, 12, ... 37).  A steered search looks for payloads where a candidate has exactly 2/5 or 3/5
     // of its modules dark AND is within ten points of the best other candidate: the inputs where an off-by-one-step in that term
